@@ -7,6 +7,7 @@ CONSTANTS
   MaxFaults = 2
   AllowCrash = TRUE
   AllowEmptyLeftover = TRUE
+  AllowTornRmdir = FALSE
   CombinerClearsQueueOnFailedFlush = TRUE
   Hash <- HashId
   ReaderReportsHunks = TRUE
